@@ -21,6 +21,25 @@ package storage
 //@ pure func revOKAt(h *heap.Heap[*item], p int, n int) bool = (2*p+1 < n ==> h.Slice[2*p+1].revision >= h.Slice[p].revision) && (2*p+2 < n ==> h.Slice[2*p+2].revision >= h.Slice[p].revision)
 //@ pure func revHeapOK(h *heap.Heap[*item]) bool = forall p int :: 0 <= p && p < len(h.Slice) ==> revOKAt(h, p, len(h.Slice))
 
+// the order the per-table heaps are built with IS the revision order (the assumed instance contracts
+// below are stated over revisions): item.less compares revisions, and the heap factory passes item.less
+//@ import cmp "cmp"
+//@ func cmp.Less[uint64]
+//@   assumed
+//@   pure
+//@   ensures result == (x < y)
+//@ func (*item).less
+//@   requires i != nil && other != nil
+//@   ensures [C11.less.revision] result == (i.revision < other.revision)
+//@   modifies nothing
+//@ func heap.New[*storage.item]
+//@   assumed
+//@   ensures result != nil && fresh(result)
+//@   modifies nothing
+//@ func NewNotificationQueue$1
+//@   before heap.New[*storage.item] assert [C11.wire.less] isFunc(less, "storage.(*item).less") && len(items) == 0
+//@   modifies nothing
+
 // Heap[*item] operations: instances of the generic theorems proved in util/heap (every strict weak
 // order; here: revision order on the current contents of the waiters, which must not change while
 // they sit in the heap). ASSUMED as instantiations, stated over revisions.
